@@ -377,9 +377,15 @@ let make_m1 (params : string list) : machine =
   let out_of_contract (o : op) : bool =
     not (in_contractb !st o) && (match m_step !st o with (_, XErr) -> false | _ -> true) in
   (* the physical deletion (PruneAlgo.prune_forest) under a flush schedule; updates [rk] *)
+  (* databases with a legacy (hash-keyed) part are outside the physical models *)
+  let is_legacy = (header_param params "legacy" "" <> "") in
   let phys_prune ?(check_disks = false) (n : string) (sched : bool list) : string * string =
     let pre = !st in
     let s', x = m_step pre (OPrune (z_of_string n)) in
+    if is_legacy then begin
+      st := s';
+      ((match x with XErr -> "err" | _ -> "ok"), "ops=;fl=")
+    end else
     match prune_forest_sha true !rk pre.forest sched (z_of_string n), x with
     | POk ((disk, log), fls), XOk ->
         st := s';
